@@ -1,10 +1,763 @@
-//! stub (to be replaced)
+//! Scenario Q: the real certification service (`varlink-certification/src/main.rs`, included as a
+//! module: `run_server` -> real `listen`, `CertInterface`, `ClientIds`, the check macros, the
+//! generated server proxy) and the real canonical client (`run_client` + generated client stubs) on
+//! the simulated network under the controlled scheduler, beside raw deviating clients played by the
+//! environment task.
+
+#[allow(dead_code, unused_imports, clippy::all, non_camel_case_types, non_snake_case)]
+mod cert {
+    include!("/repo/varlink-certification/src/main.rs");
+
+    // glue living inside the module so that the private items stay untouched in /repo
+    pub fn client(connection: Arc<RwLock<varlink::Connection>>) -> std::result::Result<(), String> {
+        run_client(connection).map_err(|e| e.to_string())
+    }
+}
+
+use std::io::BufReader;
+use std::sync::{Arc, Mutex as StdMutex, RwLock};
+
 use serde_derive::{Deserialize, Serialize};
-use crate::report::RunResult;
-#[derive(Clone, Debug, Serialize, Deserialize)]
-pub struct QCase {}
-pub fn eval_q(_c: &QCase) -> RunResult { RunResult::default() }
-pub fn shrinks(_c: &QCase) -> Vec<QCase> { vec![] }
-use crate::props::Plan;
-use crate::report::Tier;
-pub fn c19_plan(_t: Tier) -> Plan { unimplemented!() }
+use serde_json::{json, Map, Value};
+
+use crate::cases::Case;
+use crate::model::split_nul;
+use crate::net::{client_pair, new_net, ConnOpts, NetRef, SimListenerImpl};
+use crate::oracle::{viol, Violation};
+use crate::props::{Plan, Space};
+use crate::report::{RunResult, Tier};
+use crate::rng::{Fnv, Rng};
+use crate::sched::{run_sim, wait_quiescent, CtlRef, SchedCfg, SimEnd};
+
+pub const STEPS: [&str; 13] = [
+    "Start", "Test01", "Test02", "Test03", "Test04", "Test05", "Test06", "Test07", "Test08", "Test09", "Test10", "Test11", "End",
+];
+const IFACE: &str = "org.varlink.certification";
+
+#[derive(Clone, Debug, Serialize, Deserialize, PartialEq)]
+pub enum Mut {
+    /// replace the value at `path` inside `parameters`
+    Set { path: Vec<String>, value: Value },
+    Remove { path: Vec<String> },
+    /// the flag members exactly as given (None = absent)
+    Flags { more: Option<bool>, oneway: Option<bool>, upgrade: Option<bool> },
+    /// send the canonical request of another step at this position
+    WrongStep { send: usize },
+    UnknownClientId,
+    NoParameters,
+}
+
+#[derive(Clone, Debug, Serialize, Deserialize, PartialEq)]
+pub struct Deviation {
+    pub step: usize,
+    pub m: Mut,
+}
+
+#[derive(Clone, Debug, Serialize, Deserialize, PartialEq)]
+pub struct QCase {
+    /// real canonical clients (run_client), each in its own task on its own connection
+    pub canonical: usize,
+    /// raw clients: canonical prefix, then one deviating request
+    pub deviants: Vec<Deviation>,
+    /// the raw clients poll by yielding (interleaving with the canonical clients) instead of
+    /// waiting for quiescence after every request
+    pub interleave: bool,
+    pub sched: SchedCfg,
+}
+
+#[derive(Default, Debug, Clone)]
+pub struct DevObs {
+    pub reached: bool,
+    pub request: Value,
+    pub replies: Vec<Value>,
+    pub ended: bool,
+    pub prefix_failed: Option<String>,
+}
+
+#[derive(Default)]
+pub struct QObs {
+    pub canon_results: Vec<Option<String>>,
+    pub client_ids: Vec<String>,
+    pub dev: Vec<DevObs>,
+    /// canonical request parameters per step as observed by a raw canonical walk (client id blanked)
+    pub canon_params: Vec<Value>,
+    pub server_result: Option<String>,
+    pub log_hash: u64,
+    pub end_time: u64,
+    pub finished: bool,
+}
+
+fn set_path(v: &mut Value, path: &[String], new: Option<Value>) {
+    if path.is_empty() {
+        if let Some(n) = new {
+            *v = n;
+        }
+        return;
+    }
+    let k = &path[0];
+    match v {
+        Value::Object(o) => {
+            if path.len() == 1 {
+                match new {
+                    Some(n) => {
+                        o.insert(k.clone(), n);
+                    }
+                    None => {
+                        o.remove(k);
+                    }
+                }
+            } else if let Some(x) = o.get_mut(k) {
+                set_path(x, &path[1..], new);
+            }
+        }
+        Value::Array(a) => {
+            if let Some(i) = k.strip_prefix('#').and_then(|s| s.parse::<usize>().ok()) {
+                if path.len() == 1 {
+                    match new {
+                        Some(n) => {
+                            if i < a.len() {
+                                a[i] = n;
+                            }
+                        }
+                        None => {
+                            if i < a.len() {
+                                a.remove(i);
+                            }
+                        }
+                    }
+                } else if let Some(x) = a.get_mut(i) {
+                    set_path(x, &path[1..], new);
+                }
+            }
+        }
+        _ => {}
+    }
+}
+
+struct Raw {
+    net: NetRef,
+    ctl: CtlRef,
+    id: usize,
+    consumed: usize,
+    interleave: bool,
+}
+
+impl Raw {
+    fn new_frames(&mut self) -> (Vec<Value>, bool) {
+        self.net.client_drain(self.id);
+        let w = self.net.lock();
+        let c = &w.conns[self.id];
+        let rx = &c.client_rx[self.consumed..];
+        let (frames, _) = split_nul(rx);
+        let mut out = Vec::new();
+        let mut used = 0;
+        for f in frames {
+            used += f.len() + 1;
+            out.push(serde_json::from_slice::<Value>(f).unwrap_or(Value::Null));
+        }
+        let ended = c.client_saw_end.is_some();
+        drop(w);
+        self.consumed += used;
+        (out, ended)
+    }
+    /// send one request and collect its reply group (up to the first frame without continues)
+    fn call(&mut self, req: &Value, may_be_silent: bool) -> (Vec<Value>, bool) {
+        let mut b = serde_json::to_vec(req).unwrap();
+        b.push(0);
+        self.net.client_send(self.id, &b);
+        let mut got: Vec<Value> = Vec::new();
+        let mut ended = false;
+        let done = |g: &Vec<Value>| g.last().map_or(false, |f| f.get("continues") != Some(&json!(true)));
+        if self.interleave && !may_be_silent {
+            for _ in 0..400 {
+                shuttle::thread::yield_now();
+                let (f, e) = self.new_frames();
+                got.extend(f);
+                ended |= e;
+                if done(&got) || ended {
+                    return (got, ended);
+                }
+            }
+        }
+        loop {
+            wait_quiescent(&self.ctl);
+            let (f, e) = self.new_frames();
+            let none = f.is_empty();
+            got.extend(f);
+            ended |= e;
+            if done(&got) || ended || none {
+                return (got, ended);
+            }
+        }
+    }
+}
+
+fn canonical_request(step: usize, client_id: &str, prev: &Value, more_strings: &[String]) -> Value {
+    let method = format!("{}.{}", IFACE, STEPS[step]);
+    let mut m = Map::new();
+    m.insert("method".into(), json!(method));
+    if step > 0 {
+        let mut p = Map::new();
+        p.insert("client_id".into(), json!(client_id));
+        if step == 11 {
+            p.insert("last_more_replies".into(), json!(more_strings));
+        } else if step < 12 && step > 1 {
+            if let Some(o) = prev.as_object() {
+                for (k, v) in o {
+                    p.insert(k.clone(), v.clone());
+                }
+            }
+        }
+        m.insert("parameters".into(), Value::Object(p));
+    }
+    if step == 10 {
+        m.insert("more".into(), json!(true));
+    }
+    if step == 11 {
+        m.insert("oneway".into(), json!(true));
+    }
+    Value::Object(m)
+}
+
+fn apply(req: &mut Value, m: &Mut) {
+    match m {
+        Mut::Set { path, value } => {
+            if let Some(p) = req.get_mut("parameters") {
+                set_path(p, path, Some(value.clone()));
+            }
+        }
+        Mut::Remove { path } => {
+            if let Some(p) = req.get_mut("parameters") {
+                set_path(p, path, None);
+            }
+        }
+        Mut::Flags { more, oneway, upgrade } => {
+            let o = req.as_object_mut().unwrap();
+            for (k, f) in [("more", more), ("oneway", oneway), ("upgrade", upgrade)] {
+                match f {
+                    Some(b) => {
+                        o.insert(k.into(), json!(b));
+                    }
+                    None => {
+                        o.remove(k);
+                    }
+                }
+            }
+        }
+        Mut::UnknownClientId => {
+            if let Some(p) = req.get_mut("parameters").and_then(|p| p.as_object_mut()) {
+                p.insert("client_id".into(), json!("0123456789abcdef"));
+            }
+        }
+        Mut::NoParameters => {
+            req.as_object_mut().unwrap().remove("parameters");
+        }
+        Mut::WrongStep { .. } => {}
+    }
+}
+
+/// walk the canonical sequence on a raw connection up to (not including) `upto`; returns
+/// (client id, parameters of the last reply, strings of the Test10 stream, observed canonical params)
+#[allow(clippy::type_complexity)]
+fn walk(raw: &mut Raw, upto: usize, record: &mut Vec<Value>) -> Result<(String, Value, Vec<String>), String> {
+    let mut client_id = String::new();
+    let mut prev = Value::Null;
+    let mut strings: Vec<String> = Vec::new();
+    for step in 0..upto {
+        let req = canonical_request(step, &client_id, &prev, &strings);
+        let mut blank = req.get("parameters").cloned().unwrap_or(Value::Null);
+        if let Some(o) = blank.as_object_mut() {
+            if o.contains_key("client_id") {
+                o.insert("client_id".into(), json!("<id>"));
+            }
+        }
+        if record.len() <= step {
+            record.push(blank);
+        }
+        let (replies, ended) = raw.call(&req, step == 11);
+        if step == 11 {
+            if !replies.is_empty() {
+                return Err(format!("canonical Test11 (oneway) was answered: {}", replies[0]));
+            }
+            continue;
+        }
+        let last = replies.last().cloned().unwrap_or(Value::Null);
+        if last.get("error").is_some() || replies.is_empty() || ended {
+            return Err(format!("canonical step {} failed on the raw client: {:?} ended={}", STEPS[step], replies.last(), ended));
+        }
+        if step == 0 {
+            client_id = last["parameters"]["client_id"].as_str().unwrap_or("").to_string();
+        }
+        if step == 10 {
+            strings = replies.iter().filter_map(|r| r["parameters"]["string"].as_str().map(String::from)).collect();
+        }
+        prev = last.get("parameters").cloned().unwrap_or(Value::Null);
+    }
+    Ok((client_id, prev, strings))
+}
+
+pub fn run_q(case: &QCase) -> (SimEnd, crate::sched::SimStats, QObs) {
+    let out: Arc<StdMutex<QObs>> = Arc::new(StdMutex::new(QObs::default()));
+    let out2 = out.clone();
+    let c = case.clone();
+    let (end, stats) = run_sim(&case.sched, move |ctl| {
+        let net = new_net();
+        varlink::verif::register("q", Arc::new(SimListenerImpl { net: net.clone() }));
+        let srv_out = out2.clone();
+        let server = shuttle::thread::spawn(move || {
+            let r = cert::run_server("sim:q", 1);
+            srv_out.lock().unwrap().server_result = Some(match r {
+                Ok(()) => "Ok".into(),
+                Err(e) => format!("Err({:?})", e.kind()),
+            });
+        });
+        {
+            let mut o = out2.lock().unwrap();
+            o.canon_results = vec![None; c.canonical];
+            o.dev = vec![DevObs::default(); c.deviants.len()];
+        }
+        // real canonical clients
+        let mut handles = Vec::new();
+        for k in 0..c.canonical {
+            let id = net.connect(ConnOpts::default());
+            let (r, w) = client_pair(&net, id);
+            let res = out2.clone();
+            handles.push(shuttle::thread::spawn(move || {
+                let mut cn = varlink::Connection::default();
+                cn.reader = Some(BufReader::new(Box::new(r)));
+                cn.writer = Some(Box::new(w));
+                let conn = Arc::new(RwLock::new(cn));
+                let r = cert::client(conn);
+                res.lock().unwrap().canon_results[k] = Some(match r {
+                    Ok(()) => "Ok".into(),
+                    Err(e) => format!("Err({})", e),
+                });
+            }));
+        }
+        // raw deviating clients, one after the other (each on its own connection)
+        let mut canon_params: Vec<Value> = Vec::new();
+        for (di, d) in c.deviants.iter().enumerate() {
+            let id = net.connect(ConnOpts::default());
+            let mut raw = Raw { net: net.clone(), ctl: ctl.clone(), id, consumed: 0, interleave: c.interleave };
+            let mut ob = DevObs::default();
+            match walk(&mut raw, d.step, &mut canon_params) {
+                Err(e) => ob.prefix_failed = Some(e),
+                Ok((client_id, prev, strings)) => {
+                    let mut req = match &d.m {
+                        Mut::WrongStep { send } => canonical_request(*send, &client_id, &prev, &strings),
+                        _ => canonical_request(d.step, &client_id, &prev, &strings),
+                    };
+                    apply(&mut req, &d.m);
+                    let silent_ok = req.get("oneway") == Some(&json!(true));
+                    let (replies, ended) = raw.call(&req, silent_ok);
+                    ob.reached = true;
+                    ob.request = req;
+                    ob.replies = replies;
+                    ob.ended = ended;
+                }
+            }
+            net.client_half_close(id);
+            out2.lock().unwrap().dev[di] = ob;
+        }
+        // a full raw walk when nothing else records the canonical parameters (plan construction)
+        if c.deviants.is_empty() && c.canonical == 0 {
+            let id = net.connect(ConnOpts::default());
+            let mut raw = Raw { net: net.clone(), ctl: ctl.clone(), id, consumed: 0, interleave: false };
+            let r = walk(&mut raw, 13, &mut canon_params);
+            if let Err(e) = r {
+                net.note(format!("raw canonical walk failed: {}", e));
+            }
+            net.client_half_close(id);
+        }
+        // let everybody finish, then let the idle timeout end the server
+        wait_quiescent(&ctl);
+        for _ in 0..40 {
+            wait_quiescent(&ctl);
+            for i in 0..net.lock().conns.len() {
+                let _ = i;
+            }
+            let (done, now, d) = {
+                let w = net.lock();
+                (out2.lock().unwrap().server_result.is_some(), w.now, w.select_deadline)
+            };
+            if done {
+                break;
+            }
+            match d {
+                Some(d) => net.set_clock(d.max(now + 1), false),
+                None => break,
+            }
+        }
+        if out2.lock().unwrap().server_result.is_none() {
+            net.emergency_shutdown();
+            wait_quiescent(&ctl);
+        }
+        let finished = out2.lock().unwrap().server_result.is_some();
+        if finished {
+            let _ = server.join();
+            for h in handles {
+                let _ = h.join();
+            }
+        }
+        varlink::verif::unregister("q");
+        let w = net.lock();
+        let mut o = out2.lock().unwrap();
+        // client ids issued on any connection (Start replies)
+        for cn in &w.conns {
+            let (frames, _) = split_nul(&cn.client_rx);
+            for f in frames {
+                if let Ok(v) = serde_json::from_slice::<Value>(f) {
+                    if let Some(id) = v.get("parameters").and_then(|p| p.get("client_id")).and_then(|s| s.as_str()) {
+                        o.client_ids.push(id.to_string());
+                    }
+                }
+            }
+        }
+        o.canon_params = canon_params;
+        // the log hash must not depend on the client ids (hashes of the real clock): event kinds and sizes only
+        o.log_hash = w.log_hash();
+        o.end_time = w.now;
+        o.finished = finished;
+    });
+    let o = std::mem::take(&mut *out.lock().unwrap_or_else(|e| e.into_inner()));
+    (end, stats, o)
+}
+
+const OK_ERRORS: [&str; 3] = [
+    "org.varlink.certification.CertificationError",
+    "org.varlink.certification.ClientIdError",
+    "org.varlink.service.InvalidParameter",
+];
+
+pub fn judge_q(case: &QCase, end: &SimEnd, o: &QObs) -> (Vec<Violation>, bool) {
+    let mut v = Vec::new();
+    match end {
+        SimEnd::Completed => {}
+        SimEnd::Panic(t) => {
+            v.push(viol("C19", "panic", format!("certification code panicked: {}", t.chars().take(300).collect::<String>())));
+            return (v, false);
+        }
+        SimEnd::Deadlock(t) => {
+            v.push(viol("C19", "deadlock", format!("certification run deadlocked: {}", t.chars().take(300).collect::<String>())));
+            return (v, false);
+        }
+        SimEnd::StepBound => return (v, true),
+    }
+    let mut inconclusive = false;
+    for (k, r) in o.canon_results.iter().enumerate() {
+        match r.as_deref() {
+            Some("Ok") => {}
+            other => v.push(viol(
+                "C19",
+                "canonical-client-failed",
+                format!("canonical client {} of {} (with {} deviating raw clients beside it) ended with {:?}", k, case.canonical, case.deviants.len(), other),
+            )),
+        }
+    }
+    let mut ids = o.client_ids.clone();
+    ids.sort();
+    let n = ids.len();
+    ids.dedup();
+    if ids.len() != n {
+        v.push(viol("C19", "client-id-reused", format!("{} client ids were issued, only {} are distinct", n, ids.len())));
+    }
+    for (d, ob) in case.deviants.iter().zip(o.dev.iter()) {
+        if let Some(e) = &ob.prefix_failed {
+            v.push(viol("C19", "canonical-prefix-failed", format!("raw client could not reach step {}: {}", STEPS[d.step], e)));
+            continue;
+        }
+        if !ob.reached {
+            inconclusive = true;
+            continue;
+        }
+        for r in &ob.replies {
+            let err = r.get("error").and_then(|e| e.as_str());
+            match err {
+                Some(e) if OK_ERRORS.contains(&e) => {}
+                Some(e) => v.push(viol(
+                    "C19",
+                    "unexpected-error-kind",
+                    format!("deviating request {} at step {} was answered with error {}", ob.request, STEPS[d.step], e),
+                )),
+                None => {
+                    v.push(viol(
+                        "C19",
+                        "deviation-passed",
+                        format!("step {} deviation {:?}: request {} was answered without an error: {}", STEPS[d.step], d.m, ob.request, r),
+                    ));
+                    break;
+                }
+            }
+        }
+    }
+    (v, inconclusive)
+}
+
+pub fn eval_q(case: &QCase) -> RunResult {
+    let (end, stats, o) = run_q(case);
+    let (violations, inconclusive) = judge_q(case, &end, &o);
+    let mut sig = Fnv::new();
+    let mut nosched = case.clone();
+    nosched.sched = SchedCfg::uniform(0);
+    sig.str(&serde_json::to_string(&nosched).unwrap());
+    sig.u64(stats.switch_hash);
+    let mut lh = Fnv::new();
+    lh.u64(o.log_hash);
+    lh.str(&format!("{:?}", o.canon_results));
+    for d in &o.dev {
+        lh.str(&format!("{} {:?}", d.replies.len(), d.replies.last().and_then(|r| r.get("error"))));
+    }
+    let silent = o.dev.iter().filter(|d| d.reached && d.replies.is_empty()).count() as u64;
+    let errors = o.dev.iter().filter(|d| d.replies.iter().any(|r| r.get("error").is_some())).count() as u64;
+    RunResult {
+        violations,
+        sig: sig.0,
+        nontrivial: case.canonical + case.deviants.len() >= 1,
+        faults: vec![("deviating_request_sent", o.dev.iter().filter(|d| d.reached).count() as u64)],
+        probes: vec![
+            ("deviation_answered_with_error", errors),
+            ("deviation_unanswered", silent),
+            ("canonical_clients_ok", o.canon_results.iter().filter(|r| r.as_deref() == Some("Ok")).count() as u64),
+            ("client_ids_issued", o.client_ids.len() as u64),
+            ("canonical_clients_ge_2", (case.canonical >= 2) as u64),
+        ],
+        sim_ms: o.end_time,
+        steps: stats.steps,
+        log_hash: lh.0,
+        inconclusive: inconclusive || !o.finished,
+        sample: Some(json!({
+            "scenario": "Q",
+            "canonical_clients": case.canonical,
+            "deviations": case.deviants.iter().zip(o.dev.iter()).map(|(d, ob)| json!({
+                "step": STEPS[d.step],
+                "mutation": format!("{:?}", d.m),
+                "request": ob.request.to_string().chars().take(300).collect::<String>(),
+                "replies": ob.replies.iter().map(|r| r.to_string().chars().take(200).collect::<String>()).collect::<Vec<_>>(),
+                "connection_ended": ob.ended,
+            })).collect::<Vec<_>>(),
+            "canonical_results": o.canon_results,
+            "sched_mode": format!("{:?}", case.sched.mode),
+            "scheduler_steps": stats.steps,
+            "context_switches": stats.switches,
+            "tasks": stats.tasks,
+        })),
+    }
+}
+
+pub fn shrinks(c: &QCase) -> Vec<QCase> {
+    let mut v = Vec::new();
+    if c.canonical > 0 {
+        let mut n = c.clone();
+        n.canonical -= 1;
+        v.push(n);
+        if c.canonical > 2 {
+            let mut n = c.clone();
+            n.canonical = 2;
+            v.push(n);
+        }
+    }
+    for i in 0..c.deviants.len() {
+        let mut n = c.clone();
+        n.deviants.remove(i);
+        v.push(n);
+    }
+    if c.interleave {
+        let mut n = c.clone();
+        n.interleave = false;
+        v.push(n);
+    }
+    v
+}
+
+pub fn pin_schedule(c: &QCase, prop: &str, clause: &str) -> QCase {
+    let (_, stats, _) = run_q(c);
+    let mut pinned = c.clone();
+    pinned.sched.replay = Some(stats.choices.clone());
+    let fails = |cand: &QCase| eval_q(cand).violations.iter().any(|v| v.prop == prop && v.clause == clause);
+    if !fails(&pinned) {
+        return c.clone();
+    }
+    pinned
+}
+
+// ---------------------------------------------------------------------------------------------
+// deviation space
+
+fn leaf_muts(v: &Value, cur: &mut Vec<String>, in_struct_object: bool, out: &mut Vec<Mut>) {
+    match v {
+        Value::Object(o) => {
+            for (k, x) in o {
+                cur.push(k.clone());
+                leaf_muts(x, cur, true, out);
+                if x.is_object() || x.is_array() {
+                    // the member as a whole (a key of a map / set, a field of a struct)
+                    out.push(Mut::Remove { path: cur.clone() });
+                }
+                cur.pop();
+            }
+        }
+        Value::Array(a) => {
+            for (i, x) in a.iter().enumerate() {
+                cur.push(format!("#{}", i));
+                leaf_muts(x, cur, false, out);
+                cur.pop();
+            }
+            if !a.is_empty() {
+                // one element fewer
+                let mut p = cur.clone();
+                p.push("#0".into());
+                out.push(Mut::Remove { path: p });
+            }
+        }
+        leaf => {
+            let path = cur.clone();
+            let (changed, retyped): (Value, Value) = match leaf {
+                Value::Bool(b) => (json!(!b), json!("s")),
+                Value::Number(n) if n.is_i64() || n.is_u64() => (json!(n.as_i64().unwrap_or(0) + 1), json!("s")),
+                Value::Number(n) => (json!(n.as_f64().unwrap_or(0.0) + 0.5), json!("s")),
+                Value::String(s) => (json!(format!("{}x", s)), json!(5)),
+                _ => (json!({"x": "foo"}), json!(5)),
+            };
+            out.push(Mut::Set { path: path.clone(), value: changed });
+            out.push(Mut::Set { path: path.clone(), value: retyped });
+            // removing a null member leaves the same typed value (None): not a deviation
+            if !(leaf.is_null() && in_struct_object) {
+                out.push(Mut::Remove { path });
+            }
+        }
+    }
+}
+
+fn canonical_flags(step: usize) -> (bool, bool, bool) {
+    (step == 10, step == 11, false)
+}
+
+pub fn deviation_space(canon_params: &[Value]) -> Vec<Deviation> {
+    let mut v = Vec::new();
+    for step in 0..13 {
+        // parameters
+        if let Some(p) = canon_params.get(step) {
+            if let Some(o) = p.as_object() {
+                let mut muts = Vec::new();
+                for (k, x) in o {
+                    if k == "client_id" {
+                        continue;
+                    }
+                    let mut cur = vec![k.clone()];
+                    leaf_muts(x, &mut cur, true, &mut muts);
+                    // the member as a whole
+                    muts.push(Mut::Remove { path: vec![k.clone()] });
+                }
+                muts.push(Mut::UnknownClientId);
+                muts.push(Mut::Remove { path: vec!["client_id".into()] });
+                muts.push(Mut::Set { path: vec!["client_id".into()], value: json!(7) });
+                muts.push(Mut::NoParameters);
+                for m in muts {
+                    v.push(Deviation { step, m });
+                }
+            }
+        }
+        // call modes
+        let canon = canonical_flags(step);
+        for bits in 0..8u8 {
+            let f = (bits & 1 != 0, bits & 2 != 0, bits & 4 != 0);
+            if f == canon {
+                continue;
+            }
+            let opt = |b: bool| if b { Some(true) } else { None };
+            v.push(Deviation { step, m: Mut::Flags { more: opt(f.0), oneway: opt(f.1), upgrade: opt(f.2) } });
+        }
+        // wrong position (Start anywhere is simply a new run, not a deviation)
+        for send in 1..13 {
+            if send != step {
+                v.push(Deviation { step, m: Mut::WrongStep { send } });
+            }
+        }
+    }
+    v
+}
+
+pub fn c19_plan(tier: Tier) -> Plan {
+    // one raw canonical walk against the real service yields the canonical parameters of every step
+    let probe = QCase { canonical: 0, deviants: vec![], interleave: false, sched: SchedCfg::uniform(1) };
+    let (_, _, o) = run_q(&probe);
+    let canon = o.canon_params.clone();
+    let devs = deviation_space(&canon);
+    let mut spaces = Vec::new();
+    {
+        let devs = devs.clone();
+        let seeds: u64 = if tier == Tier::Quick { 1 } else { 6 };
+        spaces.push(Space {
+            name: "Q.strict.single-deviation",
+            size: devs.len() as u64 * seeds,
+            exhaustive: true,
+            gen: Box::new(move |idx, seed| {
+                let mut rng = Rng::new(seed);
+                let d = devs[(idx / seeds) as usize].clone();
+                Case::Q(QCase {
+                    canonical: if (idx / seeds) % 5 == 0 { 1 } else { 0 },
+                    deviants: vec![d],
+                    interleave: idx % 2 == 1,
+                    sched: SchedCfg::random(&mut rng, 1),
+                })
+            }),
+        });
+    }
+    {
+        let n = if tier == Tier::Quick { 400 } else { 12_000 };
+        spaces.push(Space {
+            name: "Q.canonical.concurrent",
+            size: n,
+            exhaustive: false,
+            gen: Box::new(move |idx, seed| {
+                let mut rng = Rng::new(seed);
+                let k = if idx < 16 { idx as usize + 1 } else if rng.chance(1, 6) { rng.range(9, 16) as usize } else { rng.range(2, 8) as usize };
+                Case::Q(QCase { canonical: k, deviants: vec![], interleave: false, sched: SchedCfg::random(&mut rng, 1) })
+            }),
+        });
+    }
+    {
+        let devs = devs.clone();
+        let n = if tier == Tier::Quick { 600 } else { 20_000 };
+        spaces.push(Space {
+            name: "Q.mixed",
+            size: n,
+            exhaustive: false,
+            gen: Box::new(move |_idx, seed| {
+                let mut rng = Rng::new(seed);
+                let k = rng.range(1, 6) as usize;
+                let nd = rng.range(1, 3) as usize;
+                let deviants = (0..nd).map(|_| rng.pick(&devs).clone()).collect();
+                Case::Q(QCase { canonical: k, deviants, interleave: rng.chance(2, 3), sched: SchedCfg::random(&mut rng, 1) })
+            }),
+        });
+    }
+    let ndev = devs.len();
+    if std::env::var("VSIM_VERBOSE").is_ok() {
+        for st in 0..13 {
+            let k: Vec<&Deviation> = devs.iter().filter(|d| d.step == st).collect();
+            let sets = k.iter().filter(|d| matches!(d.m, Mut::Set { .. })).count();
+            let rem = k.iter().filter(|d| matches!(d.m, Mut::Remove { .. })).count();
+            println!("  step {:<7} deviations {:>3} (set {} remove {}) canonical parameters: {}", STEPS[st], k.len(), sets, rem, canon.get(st).map(|v| v.to_string()).unwrap_or_default().chars().take(150).collect::<String>());
+        }
+    }
+    Plan {
+        spaces,
+        rule: format!("Q: the real certification service behind the real listen loop on the simulated network. Strictness: {} single deviations = for every step Start..End: every scalar leaf of its canonical parameters changed / retyped / removed, every member removed, array shortened, unknown / missing / ill-typed client id, no parameters; every wrong combination of more / oneway / upgrade; every other step's canonical request sent at this position - each after the canonical prefix on a raw connection (complete enumeration; canonical parameters are taken from a raw canonical walk against the service itself, mutations that deserialize to the same typed value are excluded by construction). Concurrency: 1..16 real canonical clients (run_client + generated stubs) with scheduler-interleaved steps; mixed runs with deviating raw clients beside canonical ones. Oracle: a deviating request is answered with CertificationError / ClientIdError / InvalidParameter, or not at all, never without an error; every canonical client returns Ok; issued client ids are pairwise distinct.", ndev),
+        level: "exploration",
+        real: vec![
+            "varlink-certification/src/main.rs: run_server, CertInterface, ClientIds, check_call_* macros, run_client (included verbatim)",
+            "generated server proxy and client stubs for org.varlink.certification (emitted by /repo's varlink_generator at harness build time)",
+            "varlink::listen, ThreadPool, handle, Connection, MethodCall",
+        ],
+        stub: vec![
+            "sockets, select, threads (as in scenario L)",
+            "deviating clients (raw JSON written by the environment task)",
+            "std::time::Instant is the REAL monotonic clock here: client ids differ between runs and are excluded from the event-log hash",
+        ],
+        assumptions: vec![
+            "an extra unknown member, or a JSON number written differently but equal as the typed value, is not a deviation".into(),
+            "Start sent again later is a new run, not a deviation".into(),
+        ],
+    }
+}
